@@ -597,3 +597,80 @@ def _rv(ctx: Ctx, fn: FuncInfo, name: str, okk: bool, inst: str, key: str, msg: 
         ctx.ok("R-RESUME", f"{name}: {inst}")
     else:
         ctx.violation("R-RESUME", fn.path, name, key, fn.loc(), msg)
+
+
+# ------------------------------------------------------------------------ R-COST-TABLE
+def rule_cost_table(ctx: Ctx, prog: Program) -> None:
+    """The heuristic parameter tables are indexed [shared domain][value] (one row of costs per domain).  Every registered heuristic that
+    reads its table must use a domain index (its dom_idx argument, or an element of decision_domains) for the first axis and a value of that
+    domain (a bound of it, or the index of a scan between its bounds) for the second.  A transposed access reads another domain's costs for
+    square tables and runs outside the table otherwise.  Siblings (min-cost, max-regret) are thereby held to the same orientation."""
+    ctx.rule("R-COST-TABLE")
+    n = 0
+    for regname in ("VAR_HEURISTIC_FCTS", "DOM_HEURISTIC_FCTS"):
+        for ent in prog.registry(regname).entries:
+            if not isinstance(ent, FuncInfo):
+                continue
+            prm = ent.params[0]
+            is_var = regname.startswith("VAR")
+            dd = ent.params[1] if is_var else None
+            dom_param = None if is_var else ent.params[-1]
+            stack = ent.params[2] if is_var else ent.params[1]
+            it = Interp(prog)
+            it.track_index = True
+            res = it.run(ent)
+            paths: List[PathResult] = list(res)
+            for r in res:
+                for l in _all_loops_local(r.state.trace):
+                    paths.extend(l.paths)
+            seen = set()
+            for pr in paths:
+                for e in pr.state.trace:
+                    if e.kind != "index" or e.root != prm or id(e.node) in seen:
+                        continue
+                    base, new = e.value
+                    comps = [c for c in list(base) + list(new) if isinstance(c, Aff)]
+                    if len(comps) < 2:
+                        continue
+                    seen.add(id(e.node))
+                    n += 1
+                    a, b = comps[0], comps[1]
+
+                    def is_domain(x: Aff) -> bool:
+                        at = x.single_atom()
+                        if at is None:
+                            return False
+                        if at[0] == "init" and dom_param is not None and at[1] == dom_param:
+                            return True
+                        if at[0] in ("init", "hav") and dd is not None and (at[1] if at[0] == "init" else at[2]) == dd:
+                            return True
+                        return False
+
+                    def is_value(x: Aff) -> bool:
+                        for at in atoms_in(x):
+                            if isinstance(at, tuple) and at[0] in ("init", "hav") and (at[1] if at[0] == "init" else at[2]) == stack:
+                                return True  # a bound read from the domain stack
+                            if isinstance(at, tuple) and at[0] == "it":
+                                return True  # the index of a scan (its range is checked to be the domain by R-PARTITION selection-range)
+                        return False
+
+                    src = ast.unparse(e.node) if e.node is not None else "?"
+                    if is_domain(a) and is_value(b) and not is_domain(b):
+                        ctx.ok("R-COST-TABLE", f"{ent.name}: {src} is [domain][value]", sample={"row": show_val(a), "column": show_val(b)})
+                    elif is_domain(b) and is_value(a):
+                        ctx.violation("R-COST-TABLE", ent.path, ent.name, f"transposed:{''.join(src.split())}", f"{ent.path}:{getattr(e.node, 'lineno', 0)}",
+                                      f"{ent.name} reads its parameter table as {src}: [value][domain] instead of [domain][value] (row {show_val(a)}, column {show_val(b)}): "
+                                      "another domain's costs are used when the table is square, and the access leaves the table when it is not")
+                    else:
+                        ctx.undecided_site("R-COST-TABLE", f"{ent.name}:{src}", "orientation of the table access not recognised")
+    ctx.floor("R-COST-TABLE:table-accesses", n, 2)
+
+
+def _all_loops_local(events: List[Event], acc: Optional[List[LoopSummary]] = None) -> List[LoopSummary]:
+    acc = [] if acc is None else acc
+    for l in loops_of(events):
+        if l not in acc:
+            acc.append(l)
+            for bp in l.paths:
+                _all_loops_local(bp.events, acc)
+    return acc
